@@ -143,6 +143,24 @@ func (g *gen) createCert() *Op {
 			what = "replays-certificate-of-another-account "
 		}
 	}
+	// malformed material: one or both fields carry a well-formed PEM block of the wrong type (two
+	// independent reasons to refuse the message: the refusal itself must be the same everywhere)
+	if k := r.Weighted([]int{90, 4, 3, 3}, "cc.malformed"); k > 0 {
+		retype := func(b []byte, typ string) []byte {
+			blk, _ := pem.Decode(b)
+			if blk == nil {
+				return b
+			}
+			return pem.EncodeToMemory(&pem.Block{Type: typ, Bytes: blk.Bytes})
+		}
+		if k == 1 || k == 3 {
+			cert = retype(cert, "CERTIFICATE REQUEST")
+		}
+		if k == 2 || k == 3 {
+			pub = retype(pub, "PUBLIC KEY")
+		}
+		what += []string{"", "cert-pem-type ", "pubkey-pem-type ", "cert+pubkey-pem-type "}[k]
+	}
 	msg := &ctypes.MsgCreateCertificate{Owner: owner.Bech, Cert: cert, Pubkey: pub}
 	return &Op{Kind: "CreateCertificate", Msg: msg, Required: owner, Boundary: fmt.Sprintf("%sserial=%s", what, serial)}
 }
